@@ -31,6 +31,12 @@ ASSUMPTIONS = [
     "the exported geometry of a circle is GEOS's 64-gon: queries whose answer differs between the discs of radius 0.998 r and r are "
     "excluded for the exported-geometry comparisons only, and counted",
     "query points closer than 1e-9 to a lanelet boundary without being on it are excluded (find_lanelet_by_position accepts 1e-15)",
+    "changing a lanelet that is already in a network (Lanelet.translate_rotate, vertex setters, LaneletNetwork.translate_rotate) is "
+    "neither modelled nor exercised here: whether the index follows such a mutation is property C11 (derived data never goes stale)",
+    "STRtree.query promises no order of its hits: lookups are compared as sorted id lists and the theorems claim set equality + each "
+    "id once; the tree's envelope prefilter is modelled (treeMeets / treeWithin) and proved redundant (C06_tree_prefilter_sound)",
+    "distinct live Python objects have distinct id(): the model gives every shapely polygon object an address and assumes (Adm) that an "
+    "added lanelet brings a polygon object not yet in the network and that copies hand out fresh objects",
     "index states left stale on request (add_lanelet / remove_lanelet with rtree=False and no later rebuild) are modelled and covered by the "
     "theorems but not queried: the property speaks about networks built in a supported way",
 ]
@@ -392,7 +398,7 @@ def wire_pts(pts):
 
 
 def wire_lanelet(l):
-    return {"id": l["id"], "addr": l["addr"], "ring": wire_pts(_ring(l))}
+    return {"id": l["id"], "addr": l["addr"], "left": wire_pts(l["left"]), "right": wire_pts(l["right"])}
 
 
 # ================================================================================================ implementation side
@@ -598,6 +604,24 @@ def run_net(ctx, case, model=True):
                 if bool(got) != (l.lanelet_id in want):
                     _fail(ctx, "C06/contains_points/wrong", f"lanelet {l.lanelet_id}.contains_points({p}) = {bool(got)}, exact polygon "
                              f"membership = {l.lanelet_id in want}", dict(case, pts=[p, p], shapes=[]))
+            if model:
+                # the model builds the polygon from the two boundary polylines of THIS lanelet (right ++ reversed left)
+                wl = {"id": int(l.lanelet_id), "addr": 0, "left": wire_pts([list(map(float, v)) for v in l.left_vertices]),
+                      "right": wire_pts([list(map(float, v)) for v in l.right_vertices])}
+                keep = [k for k, amb in enumerate(masks_pos) if l.lanelet_id not in amb]
+                m = ctx.driver.ask("C06", "contains_points", {"lanelet": wl, "pts": wire_pts(pts)})
+                ctx.compare(case, {"ok": [bool(rr[1][k]) for k in keep]},
+                            {"ok": [m["ok"][k] for k in keep]} if "ok" in m else m,
+                            "Lanelet.contains_points vs CR.Index.Lanelet.containsPoints")
+        if model and n.lanelets:
+            # the assertion on the point array: a single point is refused
+            l = n.lanelets[0]
+            r1 = call(l.contains_points, np.array(pts[:1], dtype=float))
+            wl = {"id": int(l.lanelet_id), "addr": 0, "left": wire_pts([list(map(float, v)) for v in l.left_vertices]),
+                  "right": wire_pts([list(map(float, v)) for v in l.right_vertices])}
+            m = ctx.driver.ask("C06", "contains_points", {"lanelet": wl, "pts": wire_pts(pts[:1])})
+            ctx.compare(case, {"err": r1[1]} if r1[0] == "err" else {"ok": [bool(x) for x in r1[1]]}, m,
+                        "Lanelet.contains_points on a single point vs CR.Index.Lanelet.containsPoints")
 
     # ---- find_lanelet_by_shape (+ cut-out by shape)
     from commonroad.scenario.lanelet import LaneletNetwork
